@@ -23,17 +23,24 @@ type input struct {
 	Val  uint64 `json:"val"`
 }
 
+type digest struct {
+	Name string `json:"name"`
+	Val  uint64 `json:"val"`
+}
+
 type replayFile struct {
-	Property string  `json:"property"`
-	Harness  string  `json:"harness"`
-	Kind     string  `json:"kind"`
-	Msg      string  `json:"msg"`
-	Inputs   []input `json:"inputs"`
+	Property string   `json:"property"`
+	Harness  string   `json:"harness"`
+	Kind     string   `json:"kind"`
+	Msg      string   `json:"msg"`
+	Inputs   []input  `json:"inputs"`
+	Digests  []digest `json:"digests"`
 }
 
 var (
 	rf     replayFile
 	pos    int
+	dpos   int
 	loaded bool
 )
 
@@ -187,6 +194,24 @@ func Itoa(i int) string        { return fmt.Sprint(i) }
 func ExistsBegin()          {}
 func ExistsEnd(c bool) bool { return c }
 
+// Digest records an observable of the real code.  The symbolic run stores its value (under
+// the path's model) in the replay file of sampled paths; the native replay recomputes it and
+// any difference is reported as a mismatch between the interpreter and the real build.
+func Digest(name string, v int) {
+	load()
+	if rf.Kind != "sample" {
+		return
+	}
+	if dpos >= len(rf.Digests) {
+		panic(Mismatch{fmt.Sprintf("digest %q: the symbolic run recorded only %d digests", name, len(rf.Digests))})
+	}
+	d := rf.Digests[dpos]
+	dpos++
+	if d.Name != name || d.Val != uint64(v) {
+		panic(Mismatch{fmt.Sprintf("digest %d: symbolic run %s=%d, native run %s=%d", dpos-1, d.Name, int64(d.Val), name, v)})
+	}
+}
+
 // KnownFinding reports whether the engine treats the listed finding as live
 // (so that the harness excludes its region).  In a native replay the live set
 // is handed over in $VERIF_LIVE_FINDINGS; it is empty when a finding's own
@@ -204,7 +229,7 @@ func KnownFinding(id string) bool {
 // the harness named in it and prints one outcome line per file.
 func ReplayMain(harnesses map[string]func()) {
 	for _, f := range strings.Split(os.Getenv("VERIF_REPLAY"), ",") {
-		curFile, loaded, pos, rf = f, false, 0, replayFile{}
+		curFile, loaded, pos, dpos, rf = f, false, 0, 0, replayFile{}
 		fmt.Printf("VERIF-REPLAY-RESULT: %s\n", replayOne(harnesses))
 	}
 }
